@@ -129,7 +129,7 @@ pub fn dec_text(d: &Value, sp: u32) -> String {
     t
 }
 pub const N_KW: u32 = 3;
-pub const N_SEP: u32 = 5;
+pub const N_SEP: u32 = 6;
 pub const N_SP: u32 = 4;
 pub fn kw_text(w: &str, kwcase: u32) -> String {
     match kwcase {
@@ -175,8 +175,10 @@ pub fn render(toks: &[Value], kwcase: u32, sep: u32, sp: u32) -> String {
             2 => { out.push_str(if stmt_end { " \t\n\n" } else { "  \t " }); }
             3 => { if stmt_end { out.push_str(" # end of statement ; MACRO x\n"); } else { out.push(' '); } }
             4 => { if stmt_end || i % 7 == 3 { out.push_str(" # café 中文 ünïcödé ;\n"); } else { out.push(' '); } }
-            // 5..: lines longer than any excerpt limit, made of 2-, 3- and 4-byte characters, shifted byte by byte
-            _ => { if stmt_end || i % 5 == 2 { out.push_str(" # "); for _ in 0..(sep - 5) { out.push('a'); } for _ in 0..30 { out.push_str("é中😀"); } out.push('\n'); } else { out.push(' '); } }
+            // 5: the other white-space characters of C's isspace(): carriage return (CRLF line ends), vertical tab, form feed
+            5 => { out.push_str(if stmt_end { " \r\n" } else { ["\x0b", "\x0c", "\r\n", " \x0b ", "\t\x0c"][i % 5] }); }
+            // 6..: lines longer than any excerpt limit, made of 2-, 3- and 4-byte characters, shifted byte by byte
+            _ => { if stmt_end || i % 5 == 2 { out.push_str(" # "); for _ in 0..(sep - 6) { out.push('a'); } for _ in 0..30 { out.push_str("é中😀"); } out.push('\n'); } else { out.push(' '); } }
         }
     }
     out
